@@ -368,6 +368,32 @@ def stepOp (st : St) (tok : String) : St × String :=
     | _, _, _ => bad
   | _ => bad
 
+/-- `b.c.17` = b64 (ctr 17), `m.r.3` = md5 (rnd 3), ... -/
+def parseTerm (s : String) : Option Ids.Term :=
+  match (s.splitOn ".").reverse with
+  | num :: kind :: wraps =>
+    match num.toNat? with
+    | none => none
+    | some n =>
+      let base : Option Ids.Term := match kind with
+        | "c" => some (.ctr n) | "r" => some (.rnd n) | _ => none
+      wraps.foldl (fun acc w => match acc, w with
+        | some t, "m" => some (Ids.Term.md5 t) | some t, "b" => some (Ids.Term.b64 t)
+        | some t, "d" => some (Ids.Term.dec t) | some t, "h" => some (Ids.Term.hex t)
+        | _, _ => none) base
+  | _ => none
+
+/-- `secrecy <known,known,...> <target>`: can the attacker derive the target? -/
+def secrecy (known target : String) : String :=
+  let ks := (known.splitOn ",").filter (· ≠ "") |>.map parseTerm
+  match parseTerm target with
+  | none => "bad-op"
+  | some t =>
+    if ks.any Option.isNone then "bad-op" else
+    let K := ks.filterMap id
+    let src := match Auth.genSource with | .randomDraw => "rnd" | .md5OfCounter => "md5"
+    s!"derivable={boolStr (Ids.derivable K t)} source={src}"
+
 def runCase (ops : List String) : String :=
   let (_, outs) := ops.foldl (fun (acc : St × List String) op =>
     let (st', o) := stepOp acc.1 op
@@ -376,6 +402,7 @@ def runCase (ops : List String) : String :=
 
 def handle : List String → String
   | "case" :: ops => runCase ops
+  | ["secrecy", known, target] => secrecy known target
   | ["canon", p] => match hx p with | some p => charsToHex (canonicalPath cfg p) | none => "bad-op"
   | ["clean", p] => match hx p with | some p => charsToHex (cleanKeepSlash p) | none => "bad-op"
   | ["base", p] => match hx p with | some p => charsToHex (pathBase p) | none => "bad-op"
